@@ -26,7 +26,7 @@ Leaves(tags) ==
   \cup {[tag |-> g, ty |-> 5, v |-> x] : g \in tags, x \in {<<0,0,0,1>>, <<255,255,255,255>>, <<128,0,0,1>>}}
   \cup {[tag |-> g, ty |-> 10, v |-> x] : g \in tags, x \in {<<0,0,0,0>>, <<0,0,14,16>>, <<255,255,255,255>>}}
   \cup {[tag |-> g, ty |-> 3, v |-> x] : g \in tags, x \in I8}
-  \cup {[tag |-> g, ty |-> 9, v |-> x] : g \in tags, x \in {Zeros(8), <<0,0,0,0,101,83,241,0>>, <<0,0,0,58>> \o <<255,244,65,127>>, Rep(255, 8), <<255,255,255,241>> \o <<136,110,9,0>>}}
+  \cup {[tag |-> g, ty |-> 9, v |-> x] : g \in tags, x \in {Zeros(8), <<0,0,0,0,101,83,241,0>>, <<0,0,0,58>> \o <<255,244,65,127>>, <<0,0,0,58>> \o <<255,244,65,128>>, <<0,0,3,232,0,0,0,0>>, Rep(255, 8), <<255,255,255,241>> \o <<136,110,9,0>>}}
   \cup {[tag |-> g, ty |-> 6, v |-> x] : g \in tags, x \in BOOLEAN}
   \cup {[tag |-> g, ty |-> 7, v |-> x] : g \in tags, x \in {[i \in 1..Len(s) |-> 32 + (s[i] % 90)] : s \in Strs}}
   \cup {[tag |-> g, ty |-> 7, v |-> x] : g \in tags, x \in {<<97, 98, 99, 100, 101, 102, 103, 0>>, Zeros(8), <<97, 0>>, <<0>>, <<97, 98, 99, 100, 101, 102, 103, 104>> \o Zeros(8)}}   \* U+0000 is a character
